@@ -384,6 +384,15 @@ func c10LastInFlowChild(c *core.Check) {
 		}
 		l := core.InnermostLoop(fn, in.Block())
 		if l == nil {
+			// a block that leaves a loop (`…; break`) is not part of the natural loop: it belongs to the loop of
+			// the block it comes from
+			for _, pred := range in.Block().Preds {
+				if pl := core.InnermostLoop(fn, pred); pl != nil && pl.Header.Dominates(in.Block()) && len(in.Block().Preds) == 1 {
+					l = pl
+				}
+			}
+		}
+		if l == nil {
 			bad = "a child read at a fixed position (" + p.Pos(in.Pos()) + ")"
 			continue
 		}
